@@ -263,6 +263,7 @@ func ruleChainExt(c *Ctx, r *Rep) {
 			}
 			r.Check(ok, key, c.Pos(ci.Pos()), "if the handler returned a builder or an error, exactly those are returned (no extra condition)", sprintf("%v", ok))
 		}
+		handbackPaths(c, r, fn, handler)
 	}
 	if n < 10 {
 		r.Undecided("floor:builders-using-handler", "", sprintf("%d Builder methods call the common handler, expected at least 10", n))
@@ -790,6 +791,21 @@ func ruleOidValid(c *Ctx, r *Rep) {
 						continue
 					}
 					okp, how := propagates(c, ev, ci)
+					// the check is made where the assertion succeeded (the other way round it looks at the zero value and
+					// lets every custom extension through unchecked)
+					inOK, inNot := false, false
+					for _, g := range guardsOf(ci.Block()) {
+						if ex, isEx := g.Cond.(*ssa.Extract); isEx && ex.Tuple == ssa.Value(ta) && ex.Index == 1 {
+							if g.Truth {
+								inOK = true
+							} else {
+								inNot = true
+							}
+						}
+					}
+					if inNot && !inOK {
+						okp, how = false, "the validator is applied where the assertion to "+typeShort(c, T)+" failed"
+					}
 					// the append of the value to the output happens after the check
 					after := false
 					for _, ci2 := range callsIn(fn) {
@@ -933,6 +949,11 @@ func ruleYearRange(c *Ctx, r *Rep) {
 				found = sprintf("..%d", *b.ub)
 			}
 			r.Check(ok, sprintf("year-range|%s|return#%d", name, nSucc), c.Pos(ret.Pos()), "0 <= "+name+".Year() <= 9999 on every successful return", found)
+			// and nothing narrower: every year a YYYY-MM-DD date can name (0000 … 9999, the latter RFC 5280's "no
+			// well-defined expiration") is let through
+			if ok {
+				r.Check(*b.lb == 0 && *b.ub == 9999, sprintf("year-range-exact|%s|return#%d", name, nSucc), c.Pos(ret.Pos()), "the range let through is exactly 0..9999", found)
+			}
 		}
 	}
 	if nSucc == 0 {
@@ -1066,4 +1087,86 @@ func panicRole(c *Ctx, fn *ssa.Function) string {
 		}
 	}
 	return c.FuncKey(fn)
+}
+
+// handbackPaths: the same as a path table, polarity included. On every way through a Builder method that has called the
+// common handler (builder, err := handler(x)): an exit that hands the pair back lies behind `builder != nil` or
+// `err != nil`; every other successful exit lies behind `builder == nil` and `err == nil`, or behind the test that no raw
+// value was given (the extension that cannot be overridden by content).
+func handbackPaths(c *Ctx, r *Rep, fn, handler *ssa.Function) {
+	if hasLoop(fn) && false {
+		return
+	}
+	var call *ssa.Call
+	for _, ci := range callsIn(fn) {
+		if ci.Common().StaticCallee() == handler {
+			call, _ = ci.(*ssa.Call)
+		}
+	}
+	if call == nil {
+		return
+	}
+	var b0, e1 ssa.Value
+	for _, ref := range *call.Referrers() {
+		if ex, ok := ref.(*ssa.Extract); ok {
+			if ex.Index == 0 {
+				b0 = ex
+			} else {
+				e1 = ex
+			}
+		}
+	}
+	if b0 == nil || e1 == nil {
+		return
+	}
+	fk := c.FuncKey(fn)
+	a := &atomizer{c: c, pv: c.newProv(), fn: fn, normEmpty: true}
+	nb, ne := "nil("+a.o(b0)+")", "nil("+a.o(e1)+")"
+	n := 0
+	for _, ret := range returnsOf(fn) {
+		if !call.Block().Dominates(ret.Block()) {
+			continue
+		}
+		res := retResults(ret)
+		if len(res) != 2 {
+			continue
+		}
+		handback := res[0] == b0 && res[1] == e1
+		if !handback && returnsNonNilError(ret) {
+			continue // a failure of its own
+		}
+		// only the exits that can be reached without going round a loop are enumerated: the tests of the handler's
+		// results come first in every Builder
+		paths, okP := a.pathsDNF(call.Block(), ret.Block(), 4000)
+		if !okP {
+			continue
+		}
+		for _, p := range paths {
+			sign := map[string]bool{}
+			feasible := true
+			rawEmpty := false
+			for _, l := range p {
+				if was, dup := sign[l.atom]; dup && was != l.pos {
+					feasible = false
+				}
+				sign[l.atom] = l.pos
+				if strings.HasPrefix(l.atom, "empty(") && strings.Contains(l.atom, "Raw") && l.pos {
+					rawEmpty = true
+				}
+			}
+			if !feasible {
+				continue
+			}
+			bNil, bKnown := sign[nb]
+			eNil, eKnown := sign[ne]
+			n++
+			if handback {
+				good := (bKnown && !bNil) || (eKnown && !eNil)
+				r.Check(good, sprintf("handback-path|%s#%d", fk, n), c.Pos(ret.Pos()), "the handler's pair is handed back where its builder or its error is known not to be nil", sprintf("builder nil: %v (tested %v), error nil: %v (tested %v)", bNil, bKnown, eNil, eKnown))
+			} else {
+				good := (bKnown && bNil && eKnown && eNil) || rawEmpty
+				r.Check(good, sprintf("own-result-path|%s#%d", fk, n), c.Pos(ret.Pos()), "an exit with a result of its own lies behind builder == nil and err == nil (or behind the test that no raw value is given)", sprintf("builder nil: %v (tested %v), error nil: %v (tested %v), raw known empty: %v", bNil, bKnown, eNil, eKnown, rawEmpty))
+			}
+		}
+	}
 }
